@@ -299,3 +299,104 @@ def bi_open(ex, args, kw):
         ex.ctx.ghost.setdefault("wfiles", []).append(wf)
         return wf
     raise Unsupported(f"open mode {mode}")
+
+
+class TextRFile:
+    """A text file opened for reading whose content is a concrete list of lines (python str or segment strings)."""
+
+    def __init__(self, path, lines):
+        self.path = path
+        self.lines = list(lines)
+        self.i = 0
+        self.closed = False
+
+    def _enter(self, ex):
+        return self
+
+    def _exit(self, ex):
+        self.closed = True
+
+    def _iterable(self, ex):
+        rest = self.lines[self.i:]
+        self.i = len(self.lines)
+        return rest
+
+
+@method("TextRFile", "readline")
+def tr_readline(ex, self, args, kw):
+    if self.closed:
+        raise SymRaise("ValueError", "I/O operation on closed file")
+    if self.i >= len(self.lines):
+        return ""
+    ln = self.lines[self.i]
+    self.i += 1
+    return ln
+
+
+@method("TextRFile", "close")
+def tr_close(ex, self, args, kw):
+    self.closed = True
+
+
+def text_of_wfile(wf):
+    """Written text pieces -> list of lines (each with its newline), as the same file would be read back (T-FS)."""
+    from .strings import SStr, norm, back
+    segs = []
+    for piece, _start in wf.suffix:
+        if piece[0] != "text":
+            raise Unsupported("binary piece in a text file")
+        segs.extend(norm(piece[1]).segs)
+    lines, cur = [], []
+    for sg in segs:
+        if isinstance(sg, str):
+            parts = sg.split("\n")
+            for k, pc in enumerate(parts):
+                if k > 0:
+                    cur.append("\n")
+                    lines.append(back(SStr(cur)))
+                    cur = []
+                if pc:
+                    cur.append(pc)
+        else:
+            if not sg.forbidden("\n"):
+                raise Unsupported("an atom that may contain a newline inside a text file")
+            cur.append(sg)
+    if cur:
+        lines.append(back(SStr(cur)))
+    return lines
+
+
+class TextFS:
+    """file-system hook for tasks working on text headers: path text -> lines; written files are recorded."""
+
+    def __init__(self):
+        self.files = {}       # repr(path) -> list of lines
+        self.written = {}     # repr(path) -> WFile
+        self.opened = []
+
+    @staticmethod
+    def key(ex, path):
+        from .libos import to_path, os_getcwd, join2
+        p = to_path(ex, path)
+        if not p.absolute:
+            p = join2(ex, os_getcwd(ex, [], {}), p)      # relative paths denote files under the working directory
+        return repr(p)
+
+    def add(self, ex, path, lines):
+        self.files[self.key(ex, path)] = list(lines)
+
+    def open(self, ex, path, mode):
+        k = self.key(ex, path)
+        self.opened.append((k, mode))
+        if mode in ("r", "rt"):
+            if k in self.written and k not in self.files:
+                return TextRFile(path, text_of_wfile(self.written[k]))
+            if k not in self.files:
+                raise SymRaise("FileNotFoundError", k)
+            return TextRFile(path, self.files[k])
+        if mode in ("w", "wt"):
+            wf = WFile(path, z3.Int(f"tf{len(self.opened)}"), text=True)
+            self.written[k] = wf
+            ex.ctx.ghost.setdefault("wfiles", []).append(wf)
+            return wf
+        return None
